@@ -85,7 +85,9 @@ impl<'a, O: Lab, A: Lab> St<'a, O, A> {
     }
 }
 
-pub fn iso<O: Lab, A: Lab>(a: &POpen<O, A>, b: &POpen<O, A>) -> bool {
+/// The first, simpler decision procedure (hyperedges of `a` in index order, every unused hyperedge of `b` as a
+/// candidate). Kept as an independent twin of `iso` for the self-test; exponential on large symmetric inputs.
+pub fn iso_simple<O: Lab, A: Lab>(a: &POpen<O, A>, b: &POpen<O, A>) -> bool {
     if a.nodes.len() != b.nodes.len() || a.edges.len() != b.edges.len() || a.s.len() != b.s.len() || a.t.len() != b.t.len() {
         return false;
     }
@@ -96,6 +98,249 @@ pub fn iso<O: Lab, A: Lab>(a: &POpen<O, A>, b: &POpen<O, A>) -> bool {
         return false;
     }
     st.search(0)
+}
+
+// ---------------------------------------------------------------------------------------------
+// Propagating search: always extend the partial map along a hyperedge of `a` that already has a
+// bound node (its candidates in `b` are then the few hyperedges incident to the image node at the
+// same position), preferring the one with the fewest candidates; only when no such hyperedge
+// exists is a fresh hyperedge matched against every unused hyperedge of `b` with the same
+// signature. Complete (every candidate is tried on backtracking), and linear-ish on the large
+// structured families where the index-order search above is exponential.
+
+struct Pr<'a, O, A> {
+    a: &'a POpen<O, A>,
+    b: &'a POpen<O, A>,
+    phi: Vec<usize>,
+    inv: Vec<usize>,
+    em: Vec<usize>,    // a edge -> b edge
+    used: Vec<bool>,   // b edges used
+    trail: Vec<usize>, // bound a-nodes
+    inc_a: Vec<Vec<(usize, bool, usize)>>, // node -> (edge, is_target, position)
+    inc_b: Vec<Vec<(usize, bool, usize)>>,
+    matched: usize,
+    // iso-invariant colours from colour refinement (equal colours are necessary for x -> y / i -> j)
+    nca: Vec<u64>,
+    ncb: Vec<u64>,
+    eca: Vec<u64>,
+    ecb: Vec<u64>,
+}
+
+impl<'a, O: Lab, A: Lab> Pr<'a, O, A> {
+    fn bind(&mut self, x: usize, y: usize) -> bool {
+        if self.phi[x] != U {
+            return self.phi[x] == y;
+        }
+        if self.inv[y] != U || self.a.nodes[x] != self.b.nodes[y] || self.nca[x] != self.ncb[y] {
+            return false;
+        }
+        self.phi[x] = y;
+        self.inv[y] = x;
+        self.trail.push(x);
+        true
+    }
+
+    fn undo_to(&mut self, mark: usize) {
+        while self.trail.len() > mark {
+            let x = self.trail.pop().unwrap();
+            let y = self.phi[x];
+            self.phi[x] = U;
+            self.inv[y] = U;
+        }
+    }
+
+    /// could a-edge i be sent to b-edge j under the current partial map (without binding)?
+    fn compatible(&self, i: usize, j: usize) -> bool {
+        let (ea, eb) = (&self.a.edges[i], &self.b.edges[j]);
+        if self.used[j] || ea.label != eb.label || ea.src.len() != eb.src.len() || ea.tgt.len() != eb.tgt.len() || self.eca[i] != self.ecb[j] {
+            return false;
+        }
+        let ok = |x: usize, y: usize| if self.phi[x] != U { self.phi[x] == y } else { self.inv[y] == U && self.a.nodes[x] == self.b.nodes[y] && self.nca[x] == self.ncb[y] };
+        ea.src.iter().zip(eb.src.iter()).all(|(&x, &y)| ok(x, y)) && ea.tgt.iter().zip(eb.tgt.iter()).all(|(&x, &y)| ok(x, y))
+    }
+
+    /// candidates of a-edge i: through its first bound node if it has one (Some), else None
+    fn candidates_via_bound(&self, i: usize) -> Option<Vec<usize>> {
+        let ea = &self.a.edges[i];
+        let pick = ea.src.iter().enumerate().map(|(p, &x)| (false, p, x)).chain(ea.tgt.iter().enumerate().map(|(p, &x)| (true, p, x))).filter(|&(_, _, x)| self.phi[x] != U).min_by_key(|&(_, _, x)| self.inc_b[self.phi[x]].len());
+        let (side, pos, x) = pick?;
+        let y = self.phi[x];
+        let mut out: Vec<usize> = self.inc_b[y].iter().filter(|&&(j, sd, ps)| sd == side && ps == pos && self.compatible(i, j)).map(|&(j, _, _)| j).collect();
+        out.dedup();
+        Some(out)
+    }
+
+    fn try_edge(&mut self, i: usize, j: usize) -> bool {
+        let mark = self.trail.len();
+        let (s1, s2, t1, t2) = (self.a.edges[i].src.clone(), self.b.edges[j].src.clone(), self.a.edges[i].tgt.clone(), self.b.edges[j].tgt.clone());
+        let ok = s1.iter().zip(s2.iter()).all(|(&x, &y)| self.bind(x, y)) && t1.iter().zip(t2.iter()).all(|(&x, &y)| self.bind(x, y));
+        if ok {
+            self.em[i] = j;
+            self.used[j] = true;
+            self.matched += 1;
+            if self.search() {
+                return true;
+            }
+            self.matched -= 1;
+            self.used[j] = false;
+            self.em[i] = U;
+        }
+        self.undo_to(mark);
+        false
+    }
+
+    fn search(&mut self) -> bool {
+        let m = self.a.edges.len();
+        if self.matched == m {
+            let mut la: Vec<&O> = (0..self.a.nodes.len()).filter(|&x| self.phi[x] == U).map(|x| &self.a.nodes[x]).collect();
+            let mut lb: Vec<&O> = (0..self.b.nodes.len()).filter(|&y| self.inv[y] == U).map(|y| &self.b.nodes[y]).collect();
+            la.sort();
+            lb.sort();
+            return la == lb;
+        }
+        // choose the unmatched hyperedge with a bound node and the fewest candidates (stop at a forced one;
+        // look at no more than 24 frontier hyperedges)
+        let mut best: Option<(usize, Vec<usize>)> = None;
+        let mut looked = 0;
+        // start from the neighbourhood of the most recently bound nodes: they are the likeliest to be forced
+        let recent: Vec<usize> = self.trail.iter().rev().take(8).flat_map(|&x| self.inc_a[x].iter().map(|t| t.0)).collect();
+        for i in recent.into_iter().chain(0..m) {
+            if self.em[i] != U {
+                continue;
+            }
+            if let Some(c) = self.candidates_via_bound(i) {
+                looked += 1;
+                if c.is_empty() {
+                    return false;
+                }
+                let better = best.as_ref().map(|(_, bc)| c.len() < bc.len()).unwrap_or(true);
+                let forced = c.len() == 1;
+                if better {
+                    best = Some((i, c));
+                }
+                if forced || looked >= 24 {
+                    break;
+                }
+            }
+        }
+        let (i, cands) = match best {
+            Some(x) => x,
+            None => {
+                // no unmatched hyperedge touches a bound node: start a new component
+                let i = (0..m).find(|&i| self.em[i] == U).unwrap();
+                let c: Vec<usize> = (0..self.b.edges.len()).filter(|&j| self.compatible(i, j)).collect();
+                (i, c)
+            }
+        };
+        for j in cands {
+            if self.try_edge(i, j) {
+                return true;
+            }
+        }
+        false
+    }
+}
+
+fn incidences<O, A>(f: &POpen<O, A>) -> Vec<Vec<(usize, bool, usize)>> {
+    let mut inc = vec![vec![]; f.nodes.len()];
+    for (e, ed) in f.edges.iter().enumerate() {
+        for (p, &x) in ed.src.iter().enumerate() {
+            inc[x].push((e, false, p));
+        }
+        for (p, &x) in ed.tgt.iter().enumerate() {
+            inc[x].push((e, true, p));
+        }
+    }
+    inc
+}
+
+fn h64<T: std::hash::Hash>(t: &T) -> u64 {
+    use std::hash::Hasher;
+    let mut h = std::collections::hash_map::DefaultHasher::new(); // fixed keys: deterministic
+    t.hash(&mut h);
+    h.finish()
+}
+
+/// Colour refinement (1-dimensional Weisfeiler-Leman on the incidence structure): node colours start from
+/// (label, positions in the two interfaces) and are refined by the colours of the incident hyperedges
+/// (with side and position), hyperedge colours by (label, ordered colours of sources and targets), until
+/// the number of classes stops growing. Computed identically on both diagrams, so any isomorphism
+/// preserves the colours: unequal colour multisets refute isomorphism, and colours restrict candidates.
+fn refine<O: Lab, A: Lab>(f: &POpen<O, A>, inc: &[Vec<(usize, bool, usize)>]) -> (Vec<u64>, Vec<u64>) {
+    let n = f.nodes.len();
+    let mut pos_s: Vec<Vec<usize>> = vec![vec![]; n];
+    let mut pos_t: Vec<Vec<usize>> = vec![vec![]; n];
+    for (p, &x) in f.s.iter().enumerate() {
+        pos_s[x].push(p);
+    }
+    for (p, &x) in f.t.iter().enumerate() {
+        pos_t[x].push(p);
+    }
+    let mut nc: Vec<u64> = (0..n).map(|x| h64(&(&f.nodes[x], &pos_s[x], &pos_t[x]))).collect();
+    let mut ec: Vec<u64> = vec![0; f.edges.len()];
+    let distinct = |v: &[u64]| {
+        let mut w = v.to_vec();
+        w.sort();
+        w.dedup();
+        w.len()
+    };
+    let mut classes = 0usize;
+    for _round in 0..(n + f.edges.len() + 1) {
+        for (e, ed) in f.edges.iter().enumerate() {
+            let sc: Vec<u64> = ed.src.iter().map(|&x| nc[x]).collect();
+            let tc: Vec<u64> = ed.tgt.iter().map(|&x| nc[x]).collect();
+            ec[e] = h64(&(&ed.label, sc, tc));
+        }
+        let mut next = vec![0u64; n];
+        for x in 0..n {
+            let mut around: Vec<(u64, bool, usize)> = inc[x].iter().map(|&(e, side, p)| (ec[e], side, p)).collect();
+            around.sort();
+            next[x] = h64(&(nc[x], around));
+        }
+        nc = next;
+        let now = distinct(&nc) + distinct(&ec);
+        if now <= classes {
+            break;
+        }
+        classes = now;
+    }
+    (nc, ec)
+}
+
+/// The propagating search with colour refinement (used by `iso` for everything but tiny inputs).
+pub fn iso_refined<O: Lab, A: Lab>(a: &POpen<O, A>, b: &POpen<O, A>) -> bool {
+    if a.nodes.len() != b.nodes.len() || a.edges.len() != b.edges.len() || a.s.len() != b.s.len() || a.t.len() != b.t.len() {
+        return false;
+    }
+    let (inc_a, inc_b) = (incidences(a), incidences(b));
+    let ((nca, eca), (ncb, ecb)) = (refine(a, &inc_a), refine(b, &inc_b));
+    let sorted = |v: &[u64]| {
+        let mut w = v.to_vec();
+        w.sort();
+        w
+    };
+    if sorted(&nca) != sorted(&ncb) || sorted(&eca) != sorted(&ecb) {
+        return false;
+    }
+    let n = a.nodes.len();
+    let mut st = Pr { a, b, phi: vec![U; n], inv: vec![U; n], em: vec![U; a.edges.len()], used: vec![false; b.edges.len()], trail: vec![], inc_a, inc_b, matched: 0, nca, ncb, eca, ecb };
+    for (x, y) in a.s.iter().zip(b.s.iter()).chain(a.t.iter().zip(b.t.iter())) {
+        if !st.bind(*x, *y) {
+            return false;
+        }
+    }
+    st.search()
+}
+
+/// Isomorphism of open hypergraphs (interfaces pinned position by position): the simple search on tiny
+/// inputs (where it is fastest), the refined propagating search otherwise. The self-test checks both against
+/// brute force and against each other.
+pub fn iso<O: Lab, A: Lab>(a: &POpen<O, A>, b: &POpen<O, A>) -> bool {
+    if a.nodes.len() + a.edges.len() <= 10 {
+        iso_simple(a, b)
+    } else {
+        iso_refined(a, b)
+    }
 }
 
 /// Isomorphism of plain hypergraphs with *free* interfaces ignored.
